@@ -12,6 +12,16 @@ from . import common
 
 ID = 'C09'
 LEVEL = 'exploration'
+# scenario variants and fault kinds mixed into the seeded part (reported in
+# the evidence; DESIGN 14.6 says where each came from)
+VARIANTS = [
+    "earlier compressed session on the same object (single allowed version)",
+    "earlier plain status query with handlers of its own",
+    "TCP connect of the login connection refused",
+    "token profile changed after construction",
+    "server closes right after reply/pong; send-error fault for early closers",
+    "known-but-unsupported version names"
+]
 RUNS = {'quick': 6000, 'thorough': 250000}
 WALL_CAP = {'quick': 200, 'thorough': 3300}
 
